@@ -75,7 +75,8 @@ class OpsMixin:
             if v.quot is not None:
                 return SymFloat(quot=(self.neg(v.quot[0]), v.quot[1]))
             if v.dec is not None:
-                return SymFloat(dec=(self.not_(v.dec[0]), v.dec[1], v.dec[2]))
+                return SymFloat(dec=(self.not_(v.dec[0]), v.dec[1], v.dec[2]),
+                                noise=None if v.noise is None else self.neg(v.noise))
             tv = self.as_tracked(v)
             if tv.ideal is not None:
                 num, den, eps, exact = tv.ideal
@@ -348,6 +349,8 @@ class OpsMixin:
                 return v.t
             if v.ival is not None:
                 return self.to_fp(v.ival)
+            if v.noise is not None:
+                raise Unsupported("bit-level operation on a float carrying rounding noise")
             if v.dec is not None:
                 raise Unsupported("floating-point arithmetic on a decimal-defined symbolic float")
             if v.real is not None:
@@ -415,6 +418,22 @@ class OpsMixin:
                     return n / 2
                 if self.int_range_bits(n) is not None and self.must(self.cmp("GtE", n, 0)):
                     return SymFloat(quot=(n, 2))
+        if t is ast.Mult:
+            for x, c in ((a, b), (b, a)):
+                if isinstance(x, SymFloat) and x.dec is not None and x.noise is None and isinstance(c, (int, float)) \
+                        and not isinstance(c, bool) and c in (10, 100, 1000, 10000) and len(x.dec[1]) <= 15:
+                    # decimal-defined double times a power of ten: the decimal shifted, up to 2 ulp away from its nearest
+                    # double (two roundings: the operand's own and the product's) - direction unknown: symbolic noise
+                    from .models import nondet_bool_sym      # noqa: F401  (model-level nondeterminism marker)
+                    self.path_model_nondet = True
+                    k = z3.Int("_noise_%d" % self.fresh_id())
+                    self.add_fact(z3.And(k >= -2, k <= 2))
+                    self.set_bounds(k, -2, 2)
+                    shift = len(str(int(c))) - 1
+                    return SymFloat(dec=(x.dec[0], x.dec[1], x.dec[2] + shift), noise=SymInt(k))
+        for v in (a, b):
+            if isinstance(v, SymFloat) and v.noise is not None:
+                raise Unsupported("arithmetic on a float carrying rounding noise")
         if not (isinstance(a, SymFloat) and a.t is not None) and not (isinstance(b, SymFloat) and b.t is not None) \
                 and t in (ast.Add, ast.Sub, ast.Mult, ast.Div, ast.Mod):
             for v in (a, b):
@@ -1096,6 +1115,19 @@ class OpsMixin:
         """int(f) / math.floor(f) / math.ceil(f)"""
         if v.ival is not None:
             return v.ival
+        if v.dec is not None and v.noise is not None:
+            if mode != "trunc" or v.dec[2] > 14:
+                raise Unsupported("floor/ceil/round of a float carrying rounding noise")
+            clean = SymFloat(dec=v.dec)
+            if v.dec[2] >= len(v.dec[1]) - 1:
+                # the decimal is an integer N: the double is N, or a few ulp off - towards zero it truncates to |N| - 1
+                n = self.rational(clean)[0]
+                neg = v.dec[0]
+                negt = z3.BoolVal(neg) if isinstance(neg, bool) else neg.t
+                k = v.noise.t
+                towards_zero = z3.If(negt, k > 0, k < 0)
+                return mkint(z3.If(towards_zero, z3.If(negt, zint(n) + 1, zint(n) - 1), zint(n)))
+            return self.float_to_int(clean, mode)       # fractional digits: a few ulp do not reach an integer
         if v.dec is not None and v.dec[2] >= len(v.dec[1]) - 1 and len(v.dec[1]) <= 15:
             return self.rational(v)[0]          # an integer-valued decimal of <= 15 digits: exact
         if v.real is not None or v.dec is not None:
@@ -1255,6 +1287,8 @@ class OpsMixin:
             if v.quot is not None:
                 return v.quot
             if v.dec is not None:
+                if v.noise is not None:
+                    raise Unsupported("exact value of a float carrying rounding noise")
                 neg, digits, e10 = v.dec
                 D = 0
                 for d in digits:
